@@ -1493,6 +1493,10 @@ func (m *Model) checkRows(o Obs, call Iv) []Hit {
 				continue
 			}
 			r, ok := o.Rows[d.AckID]
+			if ok && d.MaybePruned {
+				// the row is there: whatever batch the job took, this one was not in it
+				d.MaybePruned = false
+			}
 			switch d.State {
 			case Outstanding:
 				if rel(call, d.Exp) != Before {
@@ -1987,6 +1991,44 @@ func (m *Model) applyStream(c Call, o Obs) []Hit {
 		doPull(p0)
 		settle.Op.K = "ack"
 		hits = append(hits, m.applyAck(settle, so)...)
+		doPull(p1)
+	case "later-extend-then-nack":
+		var ph [3][]RecvMsg
+		for _, rm := range o.Msgs {
+			k := rm.Phase
+			if k > 2 {
+				k = 2
+			}
+			ph[k] = append(ph[k], rm)
+		}
+		doPull(ph[0])
+		settle.Op.K, settle.Op.D = "modack", 600*time.Second
+		hits = append(hits, m.applyModack(settle, so)...)
+		doPull(ph[1])
+		settle.Op.D = 0
+		hits = append(hits, m.applyModack(settle, so)...)
+		doPull(ph[2])
+	case "later-ack+extend", "later-ack+nack":
+		var p0, p1 []RecvMsg
+		for _, rm := range o.Msgs {
+			if rm.Phase == 0 {
+				p0 = append(p0, rm)
+			} else {
+				p1 = append(p1, rm)
+			}
+		}
+		doPull(p0)
+		if len(c.AckIDs) > 0 {
+			a := Call{Op: Op{K: "ack", Sub: c.Op.Sub}, AckIDs: c.AckIDs[:1]}
+			hits = append(hits, m.applyAck(a, so)...)
+			if len(c.AckIDs) > 1 {
+				d := Call{Op: Op{K: "modack", Sub: c.Op.Sub}, AckIDs: c.AckIDs[1:]}
+				if c.Op.Tgt == "later-ack+extend" {
+					d.Op.D = 60 * time.Second
+				}
+				hits = append(hits, m.applyModack(d, so)...)
+			}
+		}
 		doPull(p1)
 	case "later-ack", "later-nack", "later-extend":
 		// the stream first serves what is due at its opening; the follow-up request
